@@ -256,7 +256,7 @@ func properties() map[string]*PropertyDef {
 		ID:       "C05",
 		Patterns: []string{"./netutil"},
 		Funcs: []string{"netutil.fromHexByte", "netutil.asciiToLower", "netutil.ipv6NetFromReversed", "netutil.ipv6FromReversed", "netutil.subnetFromReversedV6",
-			"netutil.indexFirstV6Label", "netutil.ipv4NetFromReversed", "netutil.ipv4FromReversed"},
+			"netutil.indexFirstV6Label", "netutil.ipv4NetFromReversed", "netutil.ipv4FromReversed", "netutil.PrefixFromReversedAddr", "netutil.ExtractReversedAddr"},
 		Lemmas: []string{"decValSmall", "dotsInStable", "dotsInNonNeg", "dotsInStep"},
 		Kinds:  map[string]bool{"ensures": true, "invariant": true, "requires": true, "lemma": true, "assert": true},
 		NeedsClauses: map[string][]string{
@@ -264,10 +264,13 @@ func properties() map[string]*PropertyDef {
 			"netutil.subnetFromReversedV6": {"accepts", "bits", "address"},
 			"netutil.indexFirstV6Label":    {"run", "at_most_32", "longest"},
 			"netutil.ipv4NetFromReversed":  {"check_at_store/l/canonical_octet", "check_at_store/l/octet_value", "bits"},
+			"netutil.PrefixFromReversedAddr": {"valid_name", "v6_accepts", "v6_prefix"},
+			"netutil.ExtractReversedAddr":    {"valid_name"},
 		},
 		Assumptions: []string{
 			"PARTIAL CLAIM. Decided: the IPv6 side completely for the lower-cased text - ipv6NetFromReversed / subnetFromReversedV6 accept exactly k <= 32 one-hex-digit labels before ip6.arpa and return the prefix of 4k bits with the nibbles reversed and zero host bits; indexFirstV6Label returns the start of the longest label-aligned run of hex labels (at most 32). On the IPv4 side every label that ipv4NetFromReversed accepts is a canonical decimal octet without leading zeros and the stored byte is its value; the number of bits is a multiple of 8 up to 32; the four-label form goes through ipv4FromReversed",
-			"NOT decided: the iff-statement at the level of PrefixFromReversedAddr / ExtractReversedAddr (composition of domain validation, lower-casing, suffix dispatch and label counting), the position/value correspondence of IPv4 labels (the positional invariant did not discharge robustly and was withdrawn), indexFirstV4Label's longest-suffix property",
+			"At the level of the exported functions: PrefixFromReversedAddr and ExtractReversedAddr accept only valid domain names (after removing at most one trailing dot); PrefixFromReversedAddr on a valid name whose lower-cased form ends in ip6.arpa succeeds iff that form is at most 72 bytes of one-hex-digit labels before the suffix, and then returns exactly the denoted prefix",
+			"NOT decided: the IPv4 half of the iff-statement and ExtractReversedAddr's 'longest suffix' statement at the level of the exported functions, the position/value correspondence of IPv4 labels (the positional invariant did not discharge robustly and was withdrawn), indexFirstV4Label's longest-suffix property",
 			"assumed: strconv.ParseUint(s, 10, 8) accepts exactly non-empty digit strings below 256 (with the stated consequences), strings.LastIndexByte / HasSuffix, netip.PrefixFrom / AddrFrom16 / AddrFrom4",
 		},
 		Explanation: "right-to-left scanner invariants over absolute positions; bit operations on nibbles with exact 8-bit semantics; a per-label check at every accepted label of the IPv4 scanner",
@@ -282,7 +285,7 @@ func properties() map[string]*PropertyDef {
 			"hostsfile.(*DefaultStorage).ByAddr", "hostsfile.(*DefaultStorage).ByName"},
 		Kinds: map[string]bool{"ensures": true, "invariant": true, "requires": true, "frame": true, "nil": true, "bounds": true},
 		NeedsClauses: map[string][]string{
-			"hostsfile.Parse": {"line_counter", "hs_stride", "hs_unmarshal_each_line", "hs_source_tagged", "hs_valid_added", "hs_invalid_reported",
+			"hostsfile.Parse": {"line_counter", "hs_stride", "hs_unmarshal_each_line", "hs_source_tagged", "hs_records_distinct", "hs_valid_added", "hs_invalid_reported",
 				"hs_invalid_source", "hs_invalid_same_token", "hs_invalid_line_error", "hs_invalid_line_number", "plain_one_outcome_per_line", "plain_errors_typed", "plain_errors_in_range"},
 			"hostsfile.(*orderedSet).add":        {"present_noop", "appended", "marks_key", "frame/"},
 			"hostsfile.(*DefaultStorage).Add":    {"inv", "no_names_no_change", "indexes_only_grow", "addr_indexed", "last_name_indexed", "last_name_listed", "frame/"},
@@ -290,7 +293,7 @@ func properties() map[string]*PropertyDef {
 			"hostsfile.(*DefaultStorage).ByName": {"found", "missing"},
 		},
 		Assumptions: []string{
-			"PARTIAL CLAIM. Decided for Parse (ghost event log over the real loop): with a HandleSet destination the calls are, per scanned token and in order, Record.UnmarshalText on a record tagged with the source name, then Add of that very record when it returned nil, otherwise HandleInvalid with the source name, the same token and a *LineError whose Line is the 1-based ordinal of the token; without a HandleSet exactly one of Add / an appended *LineError per token, each numbered within the tokens read so far; the loop terminates with the scanner",
+			"PARTIAL CLAIM. Decided for Parse (ghost event log over the real loop): with a HandleSet destination the calls are, per scanned token and in order, Record.UnmarshalText on a record tagged with the source name, each line on a record object of its own, then Add of that very record when it returned nil, otherwise HandleInvalid with the source name, the same token and a *LineError whose Line is the 1-based ordinal of the token; without a HandleSet exactly one of Add / an appended *LineError per token, each numbered within the tokens read so far; the loop terminates with the scanner",
 			"Decided for DefaultStorage: a record without names changes neither index; existing index entries are never replaced or removed; after Add the address is a key of the by-address index and every name is, lower-cased, a key of the by-name index whose set marks the address and whose by-address set marks the lower-cased name; an ordered set appends a new value at the end exactly when its key is new and otherwise changes nothing; ByName looks up the lower-cased host, ByAddr the address, and both return nil for a missing key",
 			"NOT decided: that the tokens are the lines of the source and independence of reader fragmentation (bufio.Scanner, assumed), which lines are well-formed (Record.UnmarshalText, property C07), ascending line numbers of the joined error, the global representation invariant of the storage (value list == key set for every entry, no duplicates, the two indexes agreeing) - it needs ownership/separation between the per-key sets which the contracts do not carry; only the per-call effects on the touched sets are proved",
 			"assumed: interface methods (Set.Add, HandleInvalid, NamedReader.Name) and UnmarshalText modify only what their contracts say; strings.ToLower is a deterministic function of its argument; rec.Names shares no memory with the storage (precondition names_not_aliased)",
@@ -303,11 +306,12 @@ func properties() map[string]*PropertyDef {
 	ps = append(ps, &PropertyDef{
 		ID:       "C18",
 		Patterns: []string{"./service", "./osutil"},
-		Funcs: []string{"osutil.isShutdownSignal", "osutil.IsShutdownSignal", "service.(*SignalHandler).shutdown", "service.(*SignalHandler).Handle",
+		Funcs: []string{"osutil.isShutdownSignal", "osutil.IsShutdownSignal", "service.(*SignalHandler).Add", "service.(*SignalHandler).shutdown", "service.(*SignalHandler).Handle",
 			"service.(*RefreshWorker).refresh", "service.(*RefreshWorker).Shutdown", "service.(*RefreshWorker).refreshInALoop"},
 		Kinds: map[string]bool{"ensures": true, "invariant": true, "requires": true, "recovers": true, "frame": true, "nil": true, "bounds": true, "variant": true},
 		NeedsClauses: map[string][]string{
 			"osutil.isShutdownSignal":            {"shutdown_signals"},
+			"service.(*SignalHandler).Add":       {"appended", "own_storage"},
 			"service.(*SignalHandler).shutdown":  {"every_service_once", "reverse_order", "success_iff_all_nil", "count", "order", "status_so_far"},
 			"service.(*SignalHandler).Handle":    {"on_panic/success_only_after_complete_shutdown", "only_on_shutdown_signal", "all_shut_down", "reverse_order", "success_iff_all_nil", "nothing_before_shutdown_signal", "ignored_so_far"},
 			"service.(*RefreshWorker).refresh":   {"two_calls", "context_from_constructor", "refreshes_with_it", "returns_its_error"},
@@ -316,7 +320,7 @@ func properties() map[string]*PropertyDef {
 				"refresh_with_new_context", "handler_gets_the_error", "every_error_handled_once", "reschedules_after_refresh", "timer_leads_to_refresh"},
 		},
 		Assumptions: []string{
-			"PARTIAL CLAIM. Decided for SignalHandler (ghost event log over the real loops): signals for which IsShutdownSignal is false cause no call on any service; after the first shutdown signal every registered service's Shutdown is called exactly once, last registered first, regardless of earlier errors; the status is success exactly when every call returned nil; if a service panics the recovered Handle does not report success (named result at every point where foreign code runs); IsShutdownSignal is exactly SIGINT/SIGQUIT/SIGTERM",
+			"PARTIAL CLAIM. Decided for SignalHandler (ghost event log over the real loops): Add appends the services in order to a list that shares no memory with the caller's argument slice; signals for which IsShutdownSignal is false cause no call on any service; after the first shutdown signal every registered service's Shutdown is called exactly once, last registered first, regardless of earlier errors; the status is success exactly when every call returned nil; if a service panics the recovered Handle does not report success (named result at every point where foreign code runs); IsShutdownSignal is exactly SIGINT/SIGQUIT/SIGTERM",
 			"Decided for RefreshWorker, single-goroutine view: every Refresh uses a context obtained from the constructor on the worker's context; each Refresh error is handed to the ErrorHandler immediately and exactly once, nil errors never; after each refresh the clock and the schedule are consulted and the next timer uses exactly that answer; Shutdown refreshes once iff RefreshOnShutdown and returns an error iff that refresh failed",
 			"NOT decided (outside contracts on sequential code): that the timer fires once per elapsed interval, the interleaving of Shutdown with the worker goroutine ('after Shutdown refreshes no more'), closing the done channel twice; channel receives and select are modelled as arbitrary choices",
 			"assumed: interface methods (services, refresher, clock, schedule, handler, context constructor) and the cancel functions do not modify the handler's / worker's fields; context.WithTimeout's cancel function does not panic",
